@@ -10,7 +10,7 @@ UNIT = dict(
     ('laythe_vm/src/byte_code.rs', ['struct Label', ('impl Label', ['new', 'val']), 'enum CaptureIndex', 'enum SymbolicByteCode']),
     ('laythe_core/src/object/fun.rs', ['enum FunKind']),
     ('laythe_vm/src/compiler/mod.rs', ['struct TryAttributes', 'struct LoopAttributes',
-       ("impl<'a, 'src: 'a> Compiler<'a, 'src>", ['try_depth', 'emit_return', 'return_', 'continue_', 'break_', 'loop_scope', 'try_'])]),
+       ("impl<'a, 'src: 'a> Compiler<'a, 'src>", ['child', 'try_depth', 'emit_return', 'return_', 'continue_', 'break_', 'loop_scope', 'try_'])]),
   ],
   rewrites=[
     ('R7f', 'struct Label'), ('R7f', 'struct TryAttributes'), ('R7f', 'struct LoopAttributes'),
@@ -25,6 +25,12 @@ UNIT = dict(
     ('R5', 'Compiler::*', dict(pat=r"&'a ast::(\w+)<'src>", rep=r'&\1', regex=True, optional=True)),
     ('R5', 'Compiler::*', dict(pat=r"&'a SymbolTable<'src>", rep='&SymbolTable', regex=True, optional=True)),
     ('R7', 'Compiler::*', dict(pat=r'^(\s*(?:///?[^\n]*\n\s*)*)fn ', rep=r'\1pub fn ', regex=True, optional=True)),
+    # Compiler::child: the constructor of the compiler of a nested function. R3c: default features; R5: lifetimes; R10l: the struct literal is
+    # projected onto the fields the model keeps (the bookkeeping under contract), the lets that only feed dropped fields go with them
+    ('R3c', 'Compiler::child', dict(features=[])),
+    ('R5', 'Compiler::child', dict(pat=r"fn child<'b>\(", rep='fn child(', regex=True, count=1)),
+    ('R5', 'Compiler::child', dict(pat=r"Compiler<'b, 'src>", rep='Compiler', regex=True, count=2)),
+    ('R10l', 'Compiler::child', dict(name='Compiler', keep=['try_attributes', 'loop_attributes', 'scope_depth', 'fun_kind', 'label_emitter'], extra='log: Ghost(Seq::empty()),')),
     # loop_scope: the callback takes `&mut Self`
     ('R4', 'Compiler::loop_scope', dict(pat='cb: impl FnOnce(&mut Self),', rep='cb: BodyCb,', count=1)),
     ('R4', 'Compiler::loop_scope', dict(pat='self.scope(end_line, table, cb);', rep='self.begin_scope(table);\n    cb.verif_run(self);\n    self.end_scope(end_line);', count=1)),
